@@ -42,6 +42,8 @@ fn payload(m: &Module, ty: &Type, rng: &mut impl RngCore, differ_from: Option<&V
                 Value::Str((0..n).map(|i| alpha[((x >> (3 * i + 4)) as usize) % alpha.len()]).collect())
             }
             Type::Enumerated { items, .. } => Value::Enum((x as usize) % items.len()),
+            // a nested structure (the nested family uses plain ones: all components mandatory)
+            Type::Sequence(f) | Type::Set(f) => Value::Seq(f.comps.iter().map(|c| Some(payload(m, &c.ty, rng, None))).collect()),
             other => panic!("C03 payload for {}", other.kind()),
         };
         let v = refcodec::wrap_for(m, ty, v);
@@ -182,7 +184,7 @@ fn case_json(zoo: &Zoo, c: &Case) -> J {
     json!({"module_text": e.text(), "module": e.module.name, "type": e.def.name, "asn1": vcore::print::type_text(&e.def.ty), "pattern": c.pattern, "value_brief": c.value.brief(), "value": serde_json::to_value(&c.value).unwrap()})
 }
 
-const RULE: &str = "bounded-exhaustive: every SEQUENCE and SET shape with <= N components (N = 3 quick, 5 thorough; each component mandatory / OPTIONAL / DEFAULT, extension marker at every position or absent; component types rotate through INTEGER(0..255), BOOLEAN, IA5String(SIZE(1..3)), INTEGER(-8..7), a referenced ENUMERATED, NULL; SET shapes carry explicit tags that reverse the root order), compiled through the real pipeline; for every shape all 2^k presence patterns (k = OPTIONAL/DEFAULT root components + extension additions; DEFAULT: equal to / different from the default) x 3 random payloads. Oracle: preamble computed from shape and pattern; whole encoding == reference; decode returns the written presence; Err only ExtensionFieldsInconsistent and only for 'first addition absent, later present' - and for that pattern the reference encoder's bits (what a peer may send) must decode to the pattern. Non-trivial: shape has >= 1 OPTIONAL/DEFAULT/extension component; distinct = (shape, pattern, payload).";
+const RULE: &str = "bounded-exhaustive: every SEQUENCE and SET shape with <= N components (N = 3 quick, 5 thorough; each component mandatory / OPTIONAL / DEFAULT, extension marker at every position or absent; component types rotate through INTEGER(0..255), BOOLEAN, IA5String(SIZE(1..3)), INTEGER(-8..7), a referenced ENUMERATED, NULL; a second family with <= 2 components whose types are a reference to an alias of INTEGER, a reference to a plain SEQUENCE and an inline plain SEQUENCE (types that bring a scope of their own); SET shapes carry explicit tags that reverse the root order), compiled through the real pipeline; for every shape all 2^k presence patterns (k = OPTIONAL/DEFAULT root components + extension additions; DEFAULT: equal to / different from the default) x 3 random payloads. Oracle: preamble computed from shape and pattern; whole encoding == reference; decode returns the written presence; Err only ExtensionFieldsInconsistent and only for 'first addition absent, later present' - and for that pattern the reference encoder's bits (what a peer may send) must decode to the pattern. Non-trivial: shape has >= 1 OPTIONAL/DEFAULT/extension component; distinct = (shape, pattern, payload).";
 
 pub fn run(ctx: Ctx) -> i32 {
     let report = Report::new(ctx.clone(), RULE);
